@@ -17,7 +17,11 @@ NOT_DECIDED = ("two simultaneously live installations built from the same expans
 def run(ck, models, tier, ws):
     ck.decided, ck.not_decided = DECIDED, NOT_DECIDED
     ck.trusted += ["rustc macro expansion and MIR", "std models"]
-    tm = models[0]
+    for tm in models:
+        run_one(ck, tm, tier, ws)
+
+
+def run_one(ck, tm, tier, ws):
     hm = mac.get(ws, tm.facts, tier)
     # (a) reset in the expansion?
     arms_total = arms_reset = 0
